@@ -19,6 +19,7 @@ INVARIANT Associative
 INVARIANT GroupingFree
 INVARIANT Lazy
 INVARIANT ExactlyOnce
+INVARIANT FailStop
 INVARIANT InOrder
 INVARIANT QFifo
 INVARIANT QPoisonRule
